@@ -82,6 +82,57 @@ Section LRU.
     induction es as [|e es IH]; intros c HI HF; cbn [fold_left]; [exact HI|].
     inversion HF; subst. apply IH; [|assumption]. apply step_ok; assumption.
   Qed.
+
+  (* the cache never holds more than `cap` entries once it is within the bound, whatever the history: a hit moves
+     an entry, a miss stores one and truncates *)
+  Lemma remove_length k c : length (remove K V keqb k c) <= length c.
+  Proof. induction c as [|[k' v'] c IH]; cbn [remove length]; [lia|]. destruct (keqb k k'); cbn [length]; lia. Qed.
+
+  Lemma lookup_remove_length k c v : lookup K V keqb k c = Some v -> S (length (remove K V keqb k c)) = length c.
+  Proof.
+    induction c as [|[k' v'] c IH]; cbn [lookup remove length]; [discriminate|].
+    destruct (keqb k k'); [reflexivity|]. intro H. cbn [length]. rewrite (IH H). reflexivity.
+  Qed.
+
+  Lemma call_bound c k : length c <= cap -> length (snd (call K V keqb pure cap c k)) <= cap.
+  Proof.
+    intro H. unfold call. destruct (lookup K V keqb k c) eqn:E; cbn [snd].
+    - cbn [length]. rewrite (lookup_remove_length _ _ _ E). exact H.
+    - rewrite firstn_length. lia.
+  Qed.
+
+  Theorem run_bound ks : forall c, length c <= cap -> length (snd (run K V keqb pure cap c ks)) <= cap.
+  Proof.
+    induction ks as [|k ks IH]; intros c H; cbn [run]; [exact H|].
+    pose proof (call_bound c k H) as Hc. destruct (call K V keqb pure cap c k) as [v c1]. cbn [snd] in Hc.
+    specialize (IH c1 Hc). destruct (run K V keqb pure cap c1 ks) as [vs c2]. exact IH.
+  Qed.
+
+  Lemma step_bound c e : length c <= cap -> length (fst (step K V keqb cap c e)) <= cap.
+  Proof.
+    intro H. destruct e as [k|k v|]; cbn [step fst].
+    - destruct (lookup K V keqb k c) eqn:E; [|exact H]. cbn [length]. rewrite (lookup_remove_length _ _ _ E). exact H.
+    - rewrite firstn_length. lia.
+    - cbn [length]. lia.
+  Qed.
+
+  Theorem interleaving_bound es : forall c, length c <= cap ->
+    length (fold_left (fun c e => fst (step K V keqb cap c e)) es c) <= cap.
+  Proof.
+    induction es as [|e es IH]; intros c H; cbn [fold_left]; [exact H|]. apply IH. apply step_bound. exact H.
+  Qed.
+
+  (* every answer a lookup gives along an interleaving of honest events is the pure value *)
+  Theorem interleaving_answers es : forall c, Inv c -> Forall honest es ->
+    forall pre e post k v, es = pre ++ e :: post -> e = ELookup K V k ->
+    snd (step K V keqb cap (fold_left (fun c e => fst (step K V keqb cap c e)) pre c) e) = Some (Some v) -> v = pure k.
+  Proof.
+    intros c HI HF pre e post k v Hes He Hv. subst es.
+    apply Forall_app in HF as [Hpre Hrest]. inversion Hrest; subst.
+    pose proof (interleaving_ok pre c HI Hpre) as HI'.
+    match goal with X : honest (ELookup K V k) |- _ => 
+      exact (proj2 (step_ok _ _ HI' X) k eq_refl v Hv) end.
+  Qed.
 End LRU.
 
 (* matcher objects *)
@@ -105,3 +156,19 @@ Qed.
 
 Theorem rebuild_fields m : rebuild (fields m) = m.
 Proof. destruct m; reflexivity. Qed.
+
+(* completeness of the equality test: objects built from the same fields compare equal *)
+Lemma str_eqb_refl x : str_eqb x x = true.
+Proof. induction x as [|c x IH]; cbn [str_eqb]; [reflexivity|]. rewrite N.eqb_refl. exact IH. Qed.
+
+Lemma lstr_eqb_refl a : lstr_eqb a a = true.
+Proof. induction a as [|x a IH]; cbn [lstr_eqb]; [reflexivity|]. rewrite str_eqb_refl. exact IH. Qed.
+
+Theorem wc_eqb_refl a : wc_eqb a a = true.
+Proof.
+  destruct a as [i e r p f]. unfold wc_eqb. cbn. rewrite lstr_eqb_refl, !Bool.eqb_reflx.
+  destruct e as [x|]; [rewrite lstr_eqb_refl|]; reflexivity.
+Qed.
+
+Theorem wc_eqb_iff a b : wc_eqb a b = true <-> a = b.
+Proof. split; [apply wc_eqb_eq|intros <-; apply wc_eqb_refl]. Qed.
